@@ -245,6 +245,12 @@ func buildC14Custom(id, site string, roles, results []string) *Scenario {
 		site = "extend"
 		sc.Desc["class"] = "site=extend-regex"
 	}
+	ptrMethod := site == "default-ptrmethod"
+	if ptrMethod {
+		// the method converts *S -> *T; a default FUNC whose source parameter is the struct by value does not fit
+		site = "default"
+		sc.Desc["class"] = "site=default-ptrmethod"
+	}
 	switch site {
 	case "extend", "default":
 		fs, ft = sT, tT
@@ -353,6 +359,9 @@ func buildC14Custom(id, site string, roles, results []string) *Scenario {
 			}
 		}
 	}
+	if reject == "" && ptrMethod && cust != nil && cust.Src != nil && cust.Src.Key() == fs.Key() {
+		reject = "default FUNC takes the struct by value but the method's source is a pointer"
+	}
 	if reject == "" && cust != nil && cust.Src != nil && cust.Src.Key() != fs.Key() {
 		reject = "source parameter type does not fit"
 		if site == "extend" {
@@ -454,6 +463,15 @@ func buildC14Custom(id, site string, roles, results []string) *Scenario {
 	if reject != "" {
 		sc.Forced, sc.ForcedReject = true, reject
 	}
+	if ptrMethod {
+		top.Src, top.Dst = space.P(sT), space.P(tT)
+		methodParams = strings.Replace(methodParams, "source "+sT.Go("conv"), "source *"+sT.Go("conv"), 1)
+		if strings.HasPrefix(mresult, "(") {
+			mresult = "(*" + mresult[1:]
+		} else {
+			mresult = "*" + mresult
+		}
+	}
 	conv.Methods = []*model.Method{top}
 	sc.Methods = []*ScMethod{{Name: "Convert", Params: methodParams, Result: mresult, Lines: mlines, M: top}}
 	sc.Mode = "value,nomutate"
@@ -492,7 +510,7 @@ func C14Scenarios(tier string) []*Scenario {
 			out = append(out, buildC14Decl(fmt.Sprintf("%05d", n), site, kind))
 		}
 	}
-	for _, site := range []string{"extend", "extend-regex", "mapfunc", "default", "structmethod"} {
+	for _, site := range []string{"extend", "extend-regex", "mapfunc", "default", "default-ptrmethod", "structmethod"} {
 		for _, roles := range orderedSelections([]string{"SA", "SB", "CX", "CV"}, 3) {
 			for _, res := range sequences(c14Results, 2) {
 				if site == "structmethod" && (containsStr(roles, "CV") || len(roles) > 2) {
